@@ -13,10 +13,12 @@ func c17Ext(tag string) spec.Extensions {
 	}
 	m := spec.Extensions{}
 	if vrfBool(tag + ".ext.0") {
+		// extension values are arbitrary JSON: a string here ...
 		m[vrfStr(tag+".ext.0.key", 1)] = tag + ".x0"
 	}
 	if vrfBool(tag + ".ext.1") {
-		m[vrfStr(tag+".ext.1.key", 1)] = tag + ".x1"
+		// ... and a number there (a merge must not care about the type of the value)
+		m[vrfStr(tag+".ext.1.key", 1)] = len(tag)
 	}
 	return m
 }
